@@ -49,6 +49,7 @@ type spec struct {
 	DeadQ    int // soft deadline per worker, seconds
 	DeadT    int
 	NeedsSim bool
+	InstrFiles []instrSpec
 }
 
 var specs = map[string]*spec{}
@@ -66,6 +67,8 @@ func init() {
 	reg(&spec{ID: "C03", Pkg: "./harness/c03", Level: "exploration", ShardsQ: n, ShardsT: n, DeadQ: 150, DeadT: 1500})
 	reg(&spec{ID: "C11", Pkg: "./harness/c11", Level: "exploration", ShardsQ: n, ShardsT: n, DeadQ: 200, DeadT: 1500})
 	reg(&spec{ID: "C12", Pkg: "./harness/c12", Level: "exploration", ShardsQ: n, ShardsT: n, DeadQ: 150, DeadT: 1500})
+	reg(&spec{ID: "C15", Pkg: "./harness/c15", Level: "exploration", ShardsQ: n, ShardsT: n, DeadQ: 240, DeadT: 1800,
+		InstrFiles: []instrSpec{{File: "terminfo/terminfo.go", Time: true}}})
 	reg(&spec{ID: "C16", Pkg: "./harness/c16", Level: "exploration", ShardsQ: n, ShardsT: n, DeadQ: 150, DeadT: 1500})
 }
 
@@ -120,7 +123,7 @@ func prepareBuild(sp *spec) (modfile, overlay string) {
 	add("export/tcell_export_native.go", "zz_verif_export_native.go")
 	add("export/terminfo_export.go", "terminfo/zz_verif_export.go")
 	add("export/views_export.go", "views/zz_verif_export.go")
-	if sp.Instr {
+	if len(sp.InstrFiles) > 0 {
 		instrument(sp, repo, dir, repl)
 	}
 	ob, _ := json.MarshalIndent(map[string]interface{}{"Replace": repl}, "", " ")
